@@ -3,5 +3,5 @@ pub open spec fn contains(b: Bounds, x: real) -> bool { ext_le(fv(b.lower), Ext:
 // no NaN; lower is never +inf, upper never -inf
 pub open spec fn wf(b: Bounds) -> bool { !(fv(b.lower) is NaN) && !(fv(b.upper) is NaN) && !(fv(b.lower) is PosInf) && !(fv(b.upper) is NegInf) }
 pub open spec fn rabs(x: real) -> real { if x >= 0real { x } else { -x } }
-pub open spec fn rmul(a: real, b: real) -> real { a * b }
-pub open spec fn rdiv(a: real, b: real) -> real { a / b }
+pub open spec fn rmul(a: real, b: real) -> real { rmul_s(a, b) }
+pub open spec fn rdiv(a: real, b: real) -> real { rdiv_s(a, b) }
